@@ -30,6 +30,10 @@
      8 shape              the observation fits the history (event times within the step, result kind fits the
                           operation, a value assignment succeeds iff the value is in range)
 
+   A late assignment [OLate dt v x] (the clock moved on by dt while the loop did not run, the assignment is
+   processed before the timers that became due) is read as an assignment at time now+dt with nothing observable
+   in between: [spec_assign] at the moved clock; every clause applies to its single run as to any other.
+
    Readings (each a named definition below):
      [tmo_granted]  the granted timeout is the requested one, or DEFAULT_TIMEOUT when none is requested;
      [tmo_ok]       TIMEOUT values in the domain: absent, Second-n with 1 <= n <= 10^9 in any letter case, or
@@ -183,6 +187,27 @@ Definition finish_step (c : cfg) (rs : list run) (sp1 : sstate) (newsid : option
   let sp3 := sp_set_now sp2 hi in
   (sp3, pre ++ f ++ chk 3 (fresh_all c sp3)).
 
+(* an assignment of x to variable i made when the specification's clock reads [sp_now sp]: the assignment
+   succeeds iff the value is in range; a new value is a change of the variable at that time; every run of the
+   step happens at that time, and clause 3 is evaluated there.  [OSet] is an assignment at the current time.
+   [OLate dt] is an assignment after the clock moved on by dt with no event in between (the loop did not run):
+   whatever was held back and is due by then is sent in the same step, and the clauses say about it what they
+   say about any run - in particular a variable's triggers are an interval apart (so the overdue held-back
+   event and the new change make ONE event), no subscriber is sent more events than triggers happened, and at
+   the end of the step every unexpired subscriber has the current values unless an interval is still running *)
+Definition spec_assign (c : cfg) (finish : sstate -> option N -> Z -> list N -> sstate * list N)
+    (sp : sstate) (i : nat) (x : N) (res : sres) : sstate * list N :=
+  let t := sp_now sp in
+  match nth_error (sp_vars sp) i, nth_error c i with
+  | Some pv, Some d =>
+      if valid d x then
+        let pvs := if opt_eqb (p_val pv) (Some x) then sp_vars sp
+                   else upd (sp_vars sp) i (p_changed pv x (d_ev d) t) in
+        finish (sp_set_vars sp pvs) None t (chk 8 match res with SSet 1 => true | _ => false end)
+      else finish sp None t (chk 8 match res with SSet 2 => true | _ => false end)
+  | _, _ => finish sp None t (chk 8 match res with SNone => true | _ => false end)
+  end.
+
 (* -> (state after the step, failing clauses) *)
 Definition spec_step (c : cfg) (sp : sstate) (o : op) (ob : step_obs) : sstate * list N :=
   let res := fst ob in
@@ -242,16 +267,8 @@ Definition spec_step (c : cfg) (sp : sstate) (o : op) (ob : step_obs) : sstate *
           end
       | None => finish sp None t (chk 7 (is_4xx res))
       end
-  | OSet i x =>
-      match nth_error (sp_vars sp) i, nth_error c i with
-      | Some pv, Some d =>
-          if valid d x then
-            let pvs := if opt_eqb (p_val pv) (Some x) then sp_vars sp
-                       else upd (sp_vars sp) i (p_changed pv x (d_ev d) t) in
-            finish (sp_set_vars sp pvs) None t (chk 8 match res with SSet 1 => true | _ => false end)
-          else finish sp None t (chk 8 match res with SSet 2 => true | _ => false end)
-      | _, _ => finish sp None t (chk 8 match res with SNone => true | _ => false end)
-      end
+  | OSet i x => spec_assign c finish sp i x res
+  | OLate dt i x => spec_assign c finish (sp_set_now sp (t + Z.of_N dt)) i x res
   | OAdv dt => finish sp None (t + Z.of_N dt) (chk 8 match res with SNone => true | _ => false end)
   | ODeliver _ _ => finish sp None t (chk 8 match res with SDeliv _ _ | SNone => true | _ => false end)
   | OJump sid k =>
@@ -319,6 +336,7 @@ Fixpoint total_adv (ops : list op) : Z :=
   match ops with
   | [] => 0
   | OAdv dt :: r => Z.of_N dt + total_adv r
+  | OLate dt _ _ :: r => Z.of_N dt + total_adv r
   | _ :: r => total_adv r
   end.
 Definition horizon : Z := 100000000000000.      (* 10^14 ms: about 3170 years of virtual time *)
